@@ -86,12 +86,15 @@ def _tail_exit_to_flag(fn):
 
     for owner, field, lst in normal._stmt_lists(fn):
         for i, st in enumerate(lst):
-            if not (isinstance(st, ast.While) and isinstance(st.test, ast.Constant) and st.test.value is True and not st.orelse and st.body and i == len(lst) - 1):
+            if not (isinstance(st, ast.While) and isinstance(st.test, ast.Constant) and st.test.value is True and not st.orelse and st.body):
                 continue
             tail = st.body[-1]
-            if not (isinstance(tail, ast.If) and not tail.orelse and len(tail.body) == 1 and isinstance(tail.body[0], ast.Return) and isinstance(tail.test, ast.Name)):
+            if not (isinstance(tail, ast.If) and not tail.orelse and len(tail.body) == 1 and isinstance(tail.body[0], (ast.Return, ast.Break)) and isinstance(tail.test, ast.Name)):
                 continue
-            if any(isinstance(n, (ast.Break, ast.Continue)) for n in ast.walk(st)):
+            by_break = isinstance(tail.body[0], ast.Break)  # `if done: break` - what follows the loop stays where it is
+            if not by_break and i != len(lst) - 1:
+                continue
+            if any(isinstance(n, (ast.Break, ast.Continue)) and n is not tail.body[0] for n in ast.walk(st)):
                 continue
             done = tail.test.id
             uses = [n for n in ast.walk(fn) if isinstance(n, ast.Name) and n.id == done]
@@ -120,9 +123,10 @@ def _tail_exit_to_flag(fn):
             st.body = st.body[:-1]
             st.test = ast.Name(id=flag, ctx=ast.Load())
             lst.insert(i, ast.Assign(targets=[ast.Name(id=flag, ctx=ast.Store())], value=ast.Constant(value=True)))
-            lst.append(copy.deepcopy(tail.body[0]))
-            for n in (lst[i], lst[-1]):
-                ast.copy_location(n, st)
+            ast.copy_location(lst[i], st)
+            if not by_break:
+                lst.append(copy.deepcopy(tail.body[0]))
+                ast.copy_location(lst[-1], st)
             ast.fix_missing_locations(fn)
             return fn
     return fn
@@ -448,6 +452,8 @@ def check_process_send_queue(ctx):
     sd_calls = [c for c in calls_in(fn) if (call_name(c) or "").endswith("send_data")]
     ctx.require(bool(sd_calls), f"{q}: no send_data call")
     for c in sd_calls:
+        inside_comp = any(isinstance(x, (ast.GeneratorExp, ast.ListComp, ast.SetComp, ast.DictComp)) and any(y is c for y in ast.walk(x)) for x in ast.walk(fn))
+        ctx.require(not inside_comp, f"{q}: send_data is called from inside a comprehension / generator (`all(send_data(p) for p in packets)`): how its results decide resolve() is not in the table of idioms")
         loops = _enclosing_loops(fn, c)
         floop = next((l for l in loops if isinstance(l, ast.For)), None)
         in_order = False
